@@ -988,8 +988,78 @@ def _timed(ctx, name, f, *a):
     ctx.extra.setdefault("unit_seconds", {})[name] = round(time.time() - t0, 1)
 
 
+def unit_store_handles(ctx):
+    """the store the application hands over IS the store: whatever is issued through one IdentDB must be there for a second
+    IdentDB on the same store object (a restart that re-opens the database, two workers on one mapping), whether the store
+    was empty or not when the object was built, a dict, a shelve object or a path"""
+    import shelve
+    import tempfile
+    tmp = tempfile.mkdtemp(prefix="c18-handles-")
+
+    class Mapping(dict):
+        """a caller-owned mapping type that is not a plain dict"""
+
+    def stores():
+        yield "dict-empty", (lambda: {}), None
+        yield "dict-with-entry", (lambda: {"unrelated-key": "x"}), None
+        yield "mapping-subclass-empty", (lambda: Mapping()), None
+        yield "shelve-object-empty", (lambda: shelve.open(os.path.join(tmp, "obj.db"), protocol=2)), "reopen-object"
+        yield "path", (lambda: os.path.join(tmp, "path.db")), "reopen-path"
+    try:
+        for sname, make, reopen in stores():
+            ctx.count("store-handles:" + sname)
+            store = make()
+            rep = {"unit": "store-handles", "store": sname}
+            first = _call(lambda: IdentDB(store, "example.org", "nq"))
+            if isinstance(first, Exn):
+                ctx.oracle_fail("store-handles:%s:constructor-raises-%s" % (sname, first.name), "IdentDB(%s) raises %s" % (sname, first.name), rep)
+                continue
+            p1 = _call(lambda: first.persistent_nameid("u1", "sp1", "nq"))
+            t1 = _call(lambda: first.transient_nameid("u2", "sp1", "nq"))
+            if isinstance(p1, Exn) or isinstance(t1, Exn):
+                ctx.oracle_fail("store-handles:%s:issue-raises" % sname, "issuing on %s raises %r / %r" % (sname, p1, t1), rep)
+                continue
+            if not isinstance(store, str):
+                # the caller's own object must hold what was issued
+                held = _call(lambda: sorted(k for k in store.keys()))
+                if isinstance(held, Exn) or p1.text not in held or t1.text not in held:
+                    ctx.oracle_fail("store-handles:%s:issued-identifier-not-in-the-callers-store" % sname,
+                                    "after issuing %r and %r through IdentDB(%s) the caller's store holds %r" % (p1.text, t1.text, sname, held), rep)
+            if reopen == "reopen-object":
+                _call(lambda: first.db.close() if hasattr(first.db, "close") else None)
+                _call(lambda: store.close())
+                store2 = shelve.open(os.path.join(tmp, "obj.db"), protocol=2)
+            elif reopen == "reopen-path":
+                _call(lambda: first.db.close())
+                store2 = store
+            else:
+                store2 = store
+            second = _call(lambda: IdentDB(store2, "example.org", "nq"))
+            if isinstance(second, Exn):
+                ctx.oracle_fail("store-handles:%s:second-handle-raises-%s" % (sname, second.name), "second IdentDB on %s raises" % sname, rep)
+                continue
+            who_p = _call(lambda: second.find_local_id(p1))
+            who_t = _call(lambda: second.find_local_id(t1))
+            p2 = _call(lambda: second.persistent_nameid("u1", "sp1", "nq"))
+            ctx.evaluations += 3
+            ctx.nontriv(("store-handles", sname))
+            if who_p != "u1" or who_t != "u2":
+                ctx.oracle_fail("store-handles:%s:issued-identifier-unknown-to-second-handle" % sname,
+                                "identifiers issued through one IdentDB on %s resolve to %r / %r (u1 / u2 expected) through a second one "
+                                "on the same store: issued and never withdrawn, yet unknown" % (sname, who_p, who_t), rep)
+            if isinstance(p2, Exn) or p2.text != p1.text:
+                ctx.oracle_fail("store-handles:%s:persistent-identifier-not-stable-across-handles" % sname,
+                                "persistent identifier of (u1, sp1) is %r through the first handle and %r through the second on the same store"
+                                % (p1.text, getattr(p2, "text", p2)), rep)
+            for h in (second,):
+                _call(lambda: h.db.close() if hasattr(h.db, "close") else None)
+    finally:
+        shutil.rmtree(tmp, ignore_errors=True)
+
+
 def run(ctx):
     _timed(ctx, "codec", unit_codec, ctx)
+    _timed(ctx, "store_handles", unit_store_handles, ctx)
     _timed(ctx, "os_source", unit_os_source, ctx)
     _timed(ctx, "processes", run_processes, ctx)
     with DigestPatch() as scripted:
@@ -1054,6 +1124,12 @@ def replay(ctx, payload):
         if not isinstance(c, Exn):
             b = _call(ident_mod.decode, c)
             print("decode :", b if isinstance(b, Exn) else fields(b))
+        return 0
+    if inp.get("unit") == "store-handles":
+        unit_store_handles(ctx)
+        for k, msg, _ in ctx.oracle_failures:
+            print("  ", k, ":", msg[:300])
+        print("store-handles unit re-run: %d finding(s)" % len(ctx.oracle_failures))
         return 0
     if inp.get("unit") == "os-source":
         unit_os_source(ctx)
